@@ -10,6 +10,10 @@ package main
 //	c25StatsFromProto     the fields of Stats set by StatsFromProto
 //	c25MaxMessageSize     grpc/chunk: const maxMessageSize
 //	c25SamplingPeriod     sampling.go: the N of `s.aggCount%N == 0`
+//	c25ChunkerErrorOrigins  grpc/chunk/chunker.go: every `return` of an error value that the chunker makes up itself
+//	                      (anything but nil, a propagated `err`, or the result of one of its own methods): the model's
+//	                      chunker cannot fail, and a failure of its own would refuse an item
+//	c25SendAllErrorUses   server.go: how gRPCChunkSender uses the error of chunk.SendAll ("discarded" = `_ = …`)
 //
 // Expected shapes (anything else fails the extraction loudly):
 //	Add  = a list of `s.X += o.X` statements plus one `if s.FlushReason == 0 { s.FlushReason = o.FlushReason }`
@@ -247,6 +251,74 @@ func tableC25Stream(repo string) (string, error) {
 		return "", fmt.Errorf("samplingSender.Send: expected exactly one `aggCount %% N`, found %d", len(periods))
 	}
 
+	// ---- errors the chunker originates, and what the only caller does with SendAll's error
+	var errOrigins []string
+	for _, d := range chunker.f.Decls {
+		fd, ok := d.(*ast.FuncDecl)
+		if !ok || fd.Body == nil || fd.Type.Results == nil {
+			continue
+		}
+		res := fd.Type.Results.List
+		if len(res) == 0 || chunker.str(res[len(res)-1].Type) != "error" {
+			continue
+		}
+		ast.Inspect(fd.Body, func(n ast.Node) bool {
+			if _, ok := n.(*ast.FuncLit); ok {
+				return false
+			}
+			ret, ok := n.(*ast.ReturnStmt)
+			if !ok || len(ret.Results) == 0 {
+				return true
+			}
+			e := ret.Results[len(ret.Results)-1]
+			switch x := e.(type) {
+			case *ast.Ident:
+				if x.Name == "nil" || x.Name == "err" {
+					return true
+				}
+			case *ast.CallExpr:
+				if se, ok := x.Fun.(*ast.SelectorExpr); ok {
+					if id, ok := se.X.(*ast.Ident); ok && id.Name == "c" {
+						return true // c.Send / c.sendOne / c.sendResponseMsg / c.Flush / c.sendFunc: propagated
+					}
+				}
+			}
+			errOrigins = append(errOrigins, fd.Name.Name+": return "+chunker.str(e))
+			return true
+		})
+	}
+	serverGo, err := parseFile(repo, "cmd/zoekt-webserver/grpc/server/server.go")
+	if err != nil {
+		return "", err
+	}
+	var sendAllUses []string
+	ast.Inspect(serverGo.f, func(n ast.Node) bool {
+		switch x := n.(type) {
+		case *ast.AssignStmt:
+			if len(x.Rhs) == 1 && strings.HasPrefix(serverGo.str(x.Rhs[0]), "chunk.SendAll(") {
+				if len(x.Lhs) == 1 && serverGo.str(x.Lhs[0]) == "_" {
+					sendAllUses = append(sendAllUses, "discarded")
+				} else {
+					sendAllUses = append(sendAllUses, "assigned to "+serverGo.str(x.Lhs[0]))
+				}
+			}
+		case *ast.ExprStmt:
+			if strings.HasPrefix(serverGo.str(x.X), "chunk.SendAll(") {
+				sendAllUses = append(sendAllUses, "discarded")
+			}
+		case *ast.ReturnStmt:
+			for _, r := range x.Results {
+				if strings.HasPrefix(serverGo.str(r), "chunk.SendAll(") {
+					sendAllUses = append(sendAllUses, "returned")
+				}
+			}
+		}
+		return true
+	})
+	if len(sendAllUses) == 0 {
+		return "", fmt.Errorf("server.go: no call of chunk.SendAll found in statement position")
+	}
+
 	var sb strings.Builder
 	sb.WriteString("namespace ZoektModel.Gen\n\n")
 	pairs := make([]string, len(names))
@@ -261,6 +333,8 @@ func tableC25Stream(repo string) (string, error) {
 	fmt.Fprintf(&sb, "def c25StatsFromProto : List String := %s\n", leanStrList(fromFields))
 	fmt.Fprintf(&sb, "def c25MaxMessageSize : Nat := %d\n", maxSize)
 	fmt.Fprintf(&sb, "def c25SamplingPeriod : Nat := %d\n", periods[0])
+	fmt.Fprintf(&sb, "def c25ChunkerErrorOrigins : List String := %s\n", leanStrList(errOrigins))
+	fmt.Fprintf(&sb, "def c25SendAllErrorUses : List String := %s\n", leanStrList(sendAllUses))
 	sb.WriteString("\nend ZoektModel.Gen\n")
 	return sb.String(), nil
 }
